@@ -919,6 +919,14 @@ def c07(W, replay=None):
 def c08(W, replay=None):
     W.build()
     cases = [] if replay else dispatch_gen(W, "C08")
+    # the same chain lists once more with one name for all chains (names need not be unique), each judged on the same filter object
+    # for all header maps in a row, so that anything remembered per chain name or per earlier request shows
+    dups = []
+    for c in cases:
+        if len(c.get("chains", [])) >= 2:
+            d = dict(c, id=c["id"] + "/dupnames", dupNames=True)
+            dups.append(d)
+    cases += sample(W, dups, 20000 if W.tier == "thorough" else 800)
     return dispatch_pipeline("C08", W, cases, replay, ["an OIDC filter without cookie serves as the distinguishable denial; whether a filter was reached is observed through its session-store lookup",
                                                        "header names in requests are lower-case as Envoy delivers them"])
 
